@@ -196,7 +196,8 @@ Ltac swp_solve :=
 (* every caller step except the pool/serial accesses themselves leaves (sr, ws, pl) alone: shape of each step *)
 Lemma caller_step_sr cfg w s s' :
   caller_step cfg w s = Some s' ->
-  ser_same (sr s) (sr s') \/ (c_pc (cl s) = CInitBuf /\ s_next (sr s') = 0 /\ s_log (sr s') = [] /\ s_skip (sr s') = false).
+  ser_same (sr s) (sr s') \/
+  ((c_pc (cl s) = CInitBuf \/ c_pc (cl s) = CInitSeq) /\ s_next (sr s') = 0 /\ s_log (sr s') = [] /\ s_skip (sr s') = false).
 Proof.
   unfold caller_step. intros H.
   destruct (c_pc (cl s)) eqn:Epc; try discriminate;
@@ -211,11 +212,13 @@ Proof.
                 (first [reflexivity
                        | etransitivity; [apply Hs; first [apply swp_complete_job|apply swp_rel_scan|apply swp_finish_op]|reflexivity]]);
               rewrite H; repeat split end; fail).
-  - right. split; [reflexivity|]. repeat split.
-  - right. split; [reflexivity|].
-    match goal with |- context[sr (finish_op ?c ?x ?r)] => destruct (swp_finish_op c x r) as (Hx & _ & _); rewrite Hx end.
+  - (* CInitBuf *) destruct (ldm (mt s)); [right; split; [left; reflexivity|]; repeat split|left; repeat split].
+  - (* CInitSeq, LDM *)
+    left. match goal with |- context[sr (finish_op ?c ?x ?r)] => destruct (swp_finish_op c x r) as (Hx & _ & _); rewrite Hx end.
     repeat split.
-  - left. match goal with |- context[sr (finish_op ?c ?x ?r)] => destruct (swp_finish_op c x r) as (Hx & _ & _); rewrite Hx end.
+  - (* CInitSeq, no LDM *)
+    right. split; [right; reflexivity|].
+    match goal with |- context[sr (finish_op ?c ?x ?r)] => destruct (swp_finish_op c x r) as (Hx & _ & _); rewrite Hx end.
     repeat split.
 Qed.
 
